@@ -13,6 +13,9 @@ patches = sorted(glob.glob(ROOT + '/selftest/benign/*.diff'))
 if args:
     patches = [p for p in patches if any(os.path.basename(p).startswith(a) for a in args)]
 ids = [c['property_id'] for c in json.load(open(ROOT + '/MANIFEST.json'))['checks']]
+if os.environ.get('BENIGN_PROPS'):
+    # a covering subset (every unit and mode at least once) for a quick pass
+    ids = [i for i in ids if i in os.environ['BENIGN_PROPS'].split(',')]
 q = queue.Queue()
 for p in patches:
     for i in ids:
